@@ -61,7 +61,7 @@ func (c *vfc24Content) Content() ([]byte, error) {
 func (c *vfc24Content) Path() string { return "" }
 func (c *vfc24Content) set(max int) {
 	c.mu.Lock()
-	c.b = []byte(fmt.Sprintf("write:\n  global:\n    max_concurrency: %d\n", max))
+	c.b = []byte(fmt.Sprintf("write:\n  global:\n    max_concurrency: %d\n  default:\n    request:\n      size_bytes_limit: 1048576\n      series_limit: 2\n      samples_limit: 16\n", max))
 	c.mu.Unlock()
 }
 
@@ -69,6 +69,7 @@ type vfc24Client struct {
 	id       int
 	gen      int    // generation of the limits configuration (= gate instance) current when the request arrived
 	kind     string // v1 | v2 | otlp
+	flavor   string // "" well-formed | big-declared | garbage | too-many-series | bad-version: rejected after the gate, before the write
 	cancel   context.CancelFunc
 	latch    chan struct{}
 	arrived  bool
@@ -161,20 +162,29 @@ func vfc24Request(ctx context.Context, c *vfc24Client, env *vfc24Env) (*http.Req
 		hdr  = map[string]string{}
 	)
 	cid := strconv.Itoa(c.id)
+	nSeries := 1
+	if c.flavor == "too-many-series" {
+		nSeries = 3 // series_limit is 2
+	}
 	switch c.kind {
 	case "v1":
-		w := &prompb.WriteRequest{Timeseries: []prompb.TimeSeries{{
-			Labels:  []labelpb.ZLabel{{Name: labels.MetricName, Value: "vf_metric"}, {Name: "client", Value: cid}},
-			Samples: []prompb.Sample{{Timestamp: 1000, Value: 1}},
-		}}}
+		w := &prompb.WriteRequest{}
+		for i := 0; i < nSeries; i++ {
+			w.Timeseries = append(w.Timeseries, prompb.TimeSeries{
+				Labels:  []labelpb.ZLabel{{Name: labels.MetricName, Value: "vf_metric"}, {Name: "client", Value: cid}, {Name: "i", Value: strconv.Itoa(i)}},
+				Samples: []prompb.Sample{{Timestamp: 1000, Value: 1}},
+			})
+		}
 		b, err := proto.Marshal(w)
 		if err != nil {
 			return nil, err
 		}
 		body = snappy.Encode(nil, b)
 	case "v2":
-		w := &writev2.Request{Symbols: []string{"", labels.MetricName, "vf_metric", "client", cid},
-			Timeseries: []writev2.TimeSeries{{LabelsRefs: []uint32{1, 2, 3, 4}, Samples: []writev2.Sample{{Timestamp: 1000, Value: 1}}}}}
+		w := &writev2.Request{Symbols: []string{"", labels.MetricName, "vf_metric", "client", cid, "i", "0", "1", "2"}}
+		for i := 0; i < nSeries; i++ {
+			w.Timeseries = append(w.Timeseries, writev2.TimeSeries{LabelsRefs: []uint32{1, 2, 3, 4, 5, uint32(6 + i)}, Samples: []writev2.Sample{{Timestamp: 1000, Value: 1}}})
+		}
 		b, err := proto.Marshal(w)
 		if err != nil {
 			return nil, err
@@ -188,10 +198,13 @@ func vfc24Request(ctx context.Context, c *vfc24Client, env *vfc24Env) (*http.Req
 		m := rm.ScopeMetrics().AppendEmpty().Metrics().AppendEmpty()
 		m.SetName("vf_gauge")
 		m.SetEmptyGauge()
-		dp := m.Gauge().DataPoints().AppendEmpty()
-		dp.SetTimestamp(pcommon.Timestamp(1_000_000_000))
-		dp.SetDoubleValue(1)
-		dp.Attributes().PutStr("client", cid)
+		for i := 0; i < nSeries; i++ {
+			dp := m.Gauge().DataPoints().AppendEmpty()
+			dp.SetTimestamp(pcommon.Timestamp(1_000_000_000))
+			dp.SetDoubleValue(1)
+			dp.Attributes().PutStr("client", cid)
+			dp.Attributes().PutStr("i", strconv.Itoa(i))
+		}
 		b, err := pmetricotlp.NewExportRequestFromMetrics(d).MarshalProto()
 		if err != nil {
 			return nil, err
@@ -199,6 +212,9 @@ func vfc24Request(ctx context.Context, c *vfc24Client, env *vfc24Env) (*http.Req
 		body = b
 		path = "/api/v1/otlp"
 		hdr["Content-Type"] = "application/x-protobuf"
+	}
+	if c.flavor == "garbage" {
+		body = []byte{0xff, 0xfe, 0x00, 0x13, 0x37, 0xff, 0xff, 0xff, 0xff, 0x7f}
 	}
 	rb := &vfc24Body{r: bytes.NewReader(body), on: func() {
 		env.mu.Lock()
@@ -212,6 +228,18 @@ func vfc24Request(ctx context.Context, c *vfc24Client, env *vfc24Env) (*http.Req
 	req.Header.Set(tenancy.DefaultTenantHeader, "vf")
 	for k, v := range hdr {
 		req.Header.Set(k, v)
+	}
+	switch {
+	case c.flavor == "big-declared":
+		req.ContentLength = 2 << 20 // size_bytes_limit is 1 MiB: rejected on the declared length
+	case c.id%2 == 0:
+		req.ContentLength = int64(len(body))
+	default:
+		req.ContentLength = -1 // unknown (chunked)
+	}
+	if c.flavor == "bad-version" {
+		req.Header.Set("X-Prometheus-Remote-Write-Version", "2.0.0")
+		req.Header.Set("Content-Type", "text/plain")
 	}
 	return req, nil
 }
@@ -228,6 +256,7 @@ type vfc24Result struct {
 	statuses   map[int]int
 	limits     []int // max_concurrency per configuration generation
 	reloads    int
+	rejectable int // arrivals the handler must reject after the gate
 	reloadsInF int // reloads performed while at least one request was queued or inside
 	atLimit    bool
 }
@@ -239,7 +268,8 @@ type vfc24Violation struct {
 
 // vfc24Run plays one schedule. kinds[i] is the endpoint of client i.
 // rrng != nil enables "reload limits configuration" events (drawn from their own stream).
-func vfc24Run(t *testing.T, rng, rrng *rand.Rand, max int, kinds []string, nEvents int, preCancel bool, label string) vfc24Result {
+// frng != nil makes about one arrival in six a request that the handler rejects after the gate (see flavor).
+func vfc24Run(t *testing.T, rng, rrng, frng *rand.Rand, max int, kinds []string, nEvents int, preCancel bool, label string) vfc24Result {
 	res := vfc24Result{statuses: map[int]int{}}
 	synctest.Test(t, func(t *testing.T) {
 		env := &vfc24Env{limits: []int{max}}
@@ -272,6 +302,10 @@ func vfc24Run(t *testing.T, rng, rrng *rand.Rand, max int, kinds []string, nEven
 			env.mu.Lock()
 			c := &vfc24Client{id: len(env.clients), gen: env.gen, latch: make(chan struct{}), arrived: true, preCanc: pre}
 			c.kind = kinds[c.id%len(kinds)]
+			if frng != nil && frng.Intn(6) == 0 {
+				c.flavor = []string{"big-declared", "garbage", "too-many-series", "bad-version"}[frng.Intn(4)]
+				res.rejectable++
+			}
 			env.clients = append(env.clients, c)
 			env.mu.Unlock()
 			ctx, cancel := context.WithCancel(context.Background())
@@ -410,9 +444,12 @@ func vfc24Run(t *testing.T, rng, rrng *rand.Rand, max int, kinds []string, nEven
 				case k < 4 || (len(queued) == 0 && len(inside) == 0):
 					pre := preCancel && rng.Intn(5) == 0
 					c := arrive(pre)
-					if pre {
+					switch {
+					case pre:
 						names = append(names, fmt.Sprintf("P%d", c.id))
-					} else {
+					case c.flavor != "":
+						names = append(names, fmt.Sprintf("J%d(%s)", c.id, c.flavor))
+					default:
 						names = append(names, fmt.Sprintf("A%d", c.id))
 					}
 				case k < 7 && len(queued) > 0:
@@ -548,7 +585,7 @@ func vfc24Run(t *testing.T, rng, rrng *rand.Rand, max int, kinds []string, nEven
 func TestVF_C24(t *testing.T) {
 	r := vfkit.Start(t, "C24")
 	defer r.Finish()
-	r.Rule("case = one schedule of 12..40 event batches {arrive, arrive-with-already-cancelled-context, client cancels while queued, client cancels while processed, complete, and in half of the schedules: reload the limits configuration " +
+	r.Rule("case = one schedule of 12..40 event batches {arrive, in half of the schedules ~1/6 of the arrivals are requests rejected after the gate (declared Content-Length over size_bytes_limit, garbage body, more series than series_limit, unsupported version header), arrive-with-already-cancelled-context, client cancels while queued, client cancels while processed, complete, and in half of the schedules: reload the limits configuration " +
 		"(Limiter.loadConfig, the function the config reloader calls; same or changed max_concurrency 1..4; issued concurrently with the cancellations/completions of its batch, never in one batch with arrivals)} (batches of 1..4 events issued concurrently) " +
 		"against a real Handler whose Limiter was configured through the limits YAML with max_concurrency 1..4; endpoints remote-write v1, v2 (receiveHTTP), OTLP (receiveOTLPHTTP) or mixed; the fake TSDB commit blocks on a latch so requests pile up at the gate; " +
 		"followed by a drain and a quiescent probe with max+1 fresh requests (max of the configuration then in force). oracle after every batch (at quiescence): for every configuration generation g, #requests that arrived under g, started reading their body and whose write " +
@@ -588,7 +625,11 @@ func TestVF_C24(t *testing.T) {
 		if rr := r.RandS("reload", c); rr.Intn(2) == 0 {
 			rrng = rr
 		}
-		res := vfc24Run(t, rng, rrng, max, kinds, nEvents, preCancel, label)
+		var frng *rand.Rand
+		if fr := r.RandS("flavor", c); fr.Intn(2) == 0 {
+			frng = fr
+		}
+		res := vfc24Run(t, rng, rrng, frng, max, kinds, nEvents, preCancel, label)
 		r.Eval(res.evals)
 		r.Signature(strings.Join(res.sig, " "))
 		if len(res.problems) > 0 {
@@ -599,6 +640,7 @@ func TestVF_C24(t *testing.T) {
 		if res.cancQueued > 0 || res.reloadsInF > 0 {
 			r.Distinct(strings.Join(res.sig, " "))
 		}
+		r.Count("arrivals_rejected_after_the_gate(413/400)", res.rejectable)
 		r.Count("limits_reloads", res.reloads)
 		r.Count("limits_reloads_with_requests_in_flight", res.reloadsInF)
 		if res.statuses[-1] > 0 {
@@ -614,7 +656,7 @@ func TestVF_C24(t *testing.T) {
 			r.Count(fmt.Sprintf("status_%d", code), k)
 		}
 		wit := map[string]any{"max_concurrency": max, "max_concurrency_by_generation": res.limits, "endpoints": kinds, "events_then_states": res.sig,
-			"legend": "events: A arrive, P arrive with cancelled context, X cancel while queued, Y cancel while processed, C complete, R<n> reload limits config with max_concurrency n; states per client: q queued/not entered, i inside, l released, f finished"}
+			"legend": "events: A arrive, J arrive with a request the handler rejects after the gate (declared size, garbage body, too many series, bad version header), P arrive with cancelled context, X cancel while queued, Y cancel while processed, C complete, R<n> reload limits config with max_concurrency n; states per client: q queued/not entered, i inside, l released, f finished"}
 		for _, v := range res.violations {
 			r.Violation(c, v.fp, v.what+fmt.Sprintf(" (max_concurrency=%d, endpoints=%v, after event batch %d)", max, kinds, v.at), wit)
 		}
